@@ -3,10 +3,12 @@ package verifharness
 import (
 	"bytes"
 	"fmt"
+	"os"
 	"strings"
 	"testing"
 	"time"
 
+	"github.com/mimecast/dtail/internal/config"
 	"github.com/mimecast/dtail/internal/verifsim"
 	"github.com/mimecast/dtail/internal/verifsimnet"
 
@@ -27,6 +29,9 @@ type C13Session struct {
 	// BadGz: the session's files are named *.gz but are not gzip data, so the
 	// reader fails and (for a follow) is retried every 2 s
 	BadGz bool `json:"bad_gz,omitempty"`
+	// Denied: further entries matched by the session's glob that must not be
+	// served (a file the permission rules deny, a directory, a dangling symlink)
+	Denied int `json:"denied,omitempty"`
 }
 
 type C13Scenario struct {
@@ -62,6 +67,8 @@ func c13Gen(r *Rand, tier string, i int) Scenario {
 		}
 		if r.Bool(0.2) {
 			s.BadGz = true
+		} else if r.Bool(0.25) {
+			s.Denied = PickOf(r, 1, 2, 3, 4)
 		}
 		switch {
 		case s.Mode == "tail":
@@ -186,8 +193,26 @@ func c13Run(t *testing.T, s Scenario, src verifsim.DecisionSource, keep bool) *R
 				}
 				w.WriteFile(fmt.Sprintf("s%d/%s%d.log%s", si, prefix, f, ext), b.Bytes())
 			}
+			for d := 0; d < ss.Denied; d++ {
+				prefix := "c"
+				if ss.Mode == "tail" {
+					prefix = "t"
+				}
+				switch d % 3 {
+				case 0: // denied by the '!secret' rule; sorts between the served files
+					w.WriteFile(fmt.Sprintf("s%d/%s0secret%d.log", si, prefix, d), []byte("SECRET\n"))
+				case 1:
+					must(os.MkdirAll(w.Data(fmt.Sprintf("s%d/%s1dir%d.log", si, prefix, d)), 0755))
+				case 2:
+					must(os.MkdirAll(w.Data(fmt.Sprintf("s%d", si)), 0755))
+					must(os.Symlink(w.Data("nowhere"), w.Data(fmt.Sprintf("s%d/%s2dangling%d.log", si, prefix, d))))
+				}
+			}
 		}
-		w.StartSSHWorld([]string{"srv1"}, sc.Cfg, nil)
+		w.StartSSHWorld([]string{"srv1"}, sc.Cfg, func() {
+			config.Server.Permissions.Default = []string{"^/.*", "!secret"}
+			config.Server.Permissions.Users = map[string][]string{}
+		})
 		dataDir = w.Dir + "/data"
 		auth := []gossh.AuthMethod{gossh.PublicKeys(Key(0).Signer)}
 		done := make(chan int, len(sc.Sessions)+16)
@@ -370,7 +395,7 @@ func c13Shape(s Scenario) string {
 	sc := s.(*C13Scenario)
 	var ss []string
 	for _, x := range sc.Sessions {
-		ss = append(ss, fmt.Sprintf("%s%dx%d@%d/r%d/c%d/p%d/z%v", x.Mode[:1], x.Files, x.Lines, x.StartMs, x.ResetAtMs, x.CloseAtMs, x.PaceMs, x.BadGz))
+		ss = append(ss, fmt.Sprintf("%s%dx%d@%d/r%d/c%d/p%d/z%v/d%d", x.Mode[:1], x.Files, x.Lines, x.StartMs, x.ResetAtMs, x.CloseAtMs, x.PaceMs, x.BadGz, x.Denied))
 	}
 	return fmt.Sprintf("cats%d/tails%d/stall%d/w2%v/%s", sc.Cfg.MaxCats, sc.Cfg.MaxTails, sc.ReaderStallMs, sc.Wave2, strings.Join(ss, ","))
 }
@@ -417,6 +442,11 @@ func c13Shrink(s Scenario) []Scenario {
 			n.Sessions[i].PaceMs = 0
 			out = append(out, n)
 		}
+		if x.Denied > 0 {
+			n := cl()
+			n.Sessions[i].Denied = x.Denied - 1
+			out = append(out, n)
+		}
 	}
 	if sc.Wave2 {
 		n := cl()
@@ -434,7 +464,7 @@ func init() {
 		ID:    "C13",
 		Level: "exploration",
 		Rule: "seeded histories of 2-8 concurrent SSH sessions against one dserver with MaxConcurrentCats 1-3 and MaxConcurrentTails 1-2: cat sessions over globs of 1-6 files " +
-			"(more files than slots), tail sessions, per-line reader stalls that keep reads open in simulated time, abrupt resets and orderly closes placed 0-400 ms after the " +
+			"(more files than slots; some globs also match entries that must not be served: a file denied by a permission rule, a directory, a dangling symlink), tail sessions, per-line reader stalls that keep reads open in simulated time, abrupt resets and orderly closes placed 0-400 ms after the " +
 			"command (waiting at the limiter, just after acquisition, mid-read), schedule bias at the limiter select; a second wave of 2*limit long reads measures the number of " +
 			"usable slots; invariant checked after every step touching readcommand.go/readfile.go: open scenario files (from /proc/self/fd) <= limit; " +
 			"non-trivial = the cat or tail limit was actually reached; distinct = (scenario shape, schedule hash)",
